@@ -120,6 +120,7 @@ type pathState struct {
 	csvRecords   [][]value
 	csvModel     bool
 	lastRegexp   string
+	sql          *sqlScript
 	hashBits     int
 	hashAllowed  []uint64
 }
@@ -704,9 +705,12 @@ func (i *interpreter) runPath(fn *ssa.Function, prefix []decision) {
 				if _, ok := r.(runtimeError); !ok {
 					// A Go runtime error inside the interpreter: either it mirrors
 					// a target runtime error (index, nil deref) or an engine bug.
-					buf := make([]byte, 4096)
+					buf := make([]byte, 16384)
 					n := runtime.Stack(buf, false)
 					msg += " [host] " + firstFrames(string(buf[:n]))
+					if os.Getenv("QSYM_DEBUG") != "" {
+						fmt.Fprintf(os.Stderr, "HOST PANIC %v\n%s\n", r, buf[:n])
+					}
 				}
 				i.onPanic(msg)
 			case string:
